@@ -12,7 +12,7 @@ from vmon.res import Result
 
 ID = "C01"
 LEVEL = "exploration"
-CASES = {"quick": 2500, "thorough": 40000}
+CASES = {"quick": 2500, "thorough": 320000}
 RULE = ("seeded random programs of 12-30 public DataFrame operations over a pool of 3 live frames (constructors, row subsetting, sort, "
         "unique, five joins, rbind/cbind/update, modify scalar/vector/callable/grouped, select/unselect/rename, item/attribute assignment "
         "and deletion, pop/popitem, colnames=, copy/deepcopy/clear, aggregate/count, converters, deliberately wrong-length assignments) "
